@@ -17,7 +17,8 @@ Concrete == {"T1", "PT1", "T2", "N1", "CH"}
 Ifaces == {"I1", "I2", "I3", "E0"}
 \* "CTX" = flamego.Context, which the request context maps to itself and a handler may re-map (trace validation only)
 \* "RWI" = http.ResponseWriter and "REQ" = *http.Request, the other services every request scope starts with
-Keys == Concrete \cup Ifaces \cup {"RCH", "CTX", "RWI", "REQ"}
+\* "LOG" = *log.Logger, which the application scope starts with (and an application may register its own afterwards)
+Keys == Concrete \cup Ifaces \cup {"RCH", "CTX", "RWI", "REQ", "LOG"}
 \* <<key type, interface>>: the key's method set covers the interface
 Implements == { <<"T1", "I1">>, <<"PT1", "I1">>, <<"I1", "I1">>, <<"I3", "I1">>,
                 <<"T1", "I2">>, <<"PT1", "I2">>, <<"T2", "I2">>, <<"N1", "I2">>, <<"I2", "I2">>, <<"I3", "I2">>,
